@@ -56,7 +56,11 @@ class VFSZip(VFS_Real):
             with shelve.open(cache_fspath, "n") as db:
                 for (key, value) in self.dircache.items():
                     db[key] = value
-        except OSError:
+        except Exception:
+            # The cache is an optimisation and the index is complete in
+            # memory.  Several workers may be writing the same files at once
+            # (the dbm back ends then fail in many ways, not only with
+            # OSError): whatever went wrong, the request goes on without it.
             return False
         else:
             return True
